@@ -245,9 +245,15 @@ def p_queries(s, n):
 
 
 def p_pad(s, pad, n):
+    """any int / slice index (negative, open-ended): the padded region is the selection grown by pad, clamped"""
     from odc.geo.roi import roi_pad
     X = np.arange(n)
-    sel = X[s].tolist()
+    if isinstance(s, int):
+        if not -n <= s < n:
+            return True, "index out of range: outside the property's domain"
+        sel = [int(X[s])]
+    else:
+        sel = X[s].tolist()
     got = X[roi_pad(s, pad, n)].tolist()
     want = list(range(max(0, sel[0] - pad), min(n, sel[-1] + 1 + pad))) if sel else None
     return (want is None or got == want), f"X[s]={sel} pad={pad} padded={got} want={want}"
@@ -274,7 +280,26 @@ def p_points(pts, ny, nx, padding, align):
     if align:
         ok = ok and all(v % align == 0 or v == lim for v, lim in
                         [(rx.start, nx), (rx.stop, nx), (ry.start, ny), (ry.stop, ny)])
-    return ok, f"roi=({ry},{rx})"
+    # exact reference ("honours padding and alignment ... however large the coordinates"): the envelope of the
+    # finite points, floor/ceil, grown by padding, aligned outwards, clipped to the image - in Python integers
+    import math
+    from fractions import Fraction
+    fin = [(Fraction(x), Fraction(y)) for x, y in arr.tolist() if np.isfinite(x) and np.isfinite(y)]
+    want = None
+    if fin:
+        def axis(vals, n):
+            lo = math.floor(min(vals)) - padding
+            hi = math.ceil(max(vals)) + padding
+            if align:
+                lo = lo - lo % align
+                hi = hi + (-hi) % align
+            return (min(max(lo, 0), n), min(max(hi, 0), n))
+        want = (axis([p[1] for p in fin], ny), axis([p[0] for p in fin], nx))
+        got = ((ry.start, ry.stop), (rx.start, rx.stop))
+        # an empty region may be reported at either end of the axis
+        same = all(g == w or (g[0] >= g[1] and w[0] >= w[1]) for g, w in zip(got, want))
+        ok = ok and same
+    return ok, f"roi=({ry},{rx}) exact padded/aligned/clipped envelope={want}"
 
 
 PREDICATES = {"norm": p_norm, "intersect3": p_intersect3, "queries": p_queries, "pad": p_pad,
@@ -309,6 +334,7 @@ def search(out, tier):
         inr = [slice(a, b) for a in range(0, n + 1) for b in range(a, n + 1)]
         for s in inr:
             run("queries", s, n)
+        for s in list(all_slices(n, ext=1)) + list(range(-n, n)):
             for pad in (0, 1, 3):
                 run("pad", s, pad, n)
         wide = [slice(a, b) for a in [None] + list(range(0, n + 3)) for b in range(0 if a is None else a, n + 3)]
@@ -334,7 +360,25 @@ def search(out, tier):
                 pts.append((rng.uniform(-2, nx + 2), rng.choice([-1, 1]) * rng.choice([2.0 ** 31 + 7, 5e9, 1e25])))
             else:
                 pts.append((rng.uniform(-3, nx + 3), rng.uniform(-3, ny + 3)))
-        run("points", pts, ny, nx, rng.choice([0, 1, 3]), rng.choice([None, 2, 8, 5]))
+        run("points", pts, ny, nx, rng.choice([0, 1, 3, 10, 17]), rng.choice([None, 2, 8, 5, 16]))
+    for _ in range(300 if tier == "quick" else 3000):
+        # point sets entirely on one side of the image (beyond it by little or by far) and paddings of any size
+        ny, nx = rng.randint(1, 120), rng.randint(1, 120)
+        side = rng.choice(["hi-x", "hi-y", "lo-x", "lo-y", "inside"])
+        off = rng.choice([1, 5, 50, 1e6, 2.0 ** 33, 1e18])
+        pts = []
+        for _ in range(rng.randint(1, 4)):
+            x, y = rng.uniform(0, nx), rng.uniform(0, ny)
+            if side == "hi-x":
+                x = nx + off + rng.uniform(0, 5)
+            elif side == "hi-y":
+                y = ny + off + rng.uniform(0, 5)
+            elif side == "lo-x":
+                x = -off - rng.uniform(0, 5)
+            elif side == "lo-y":
+                y = -off - rng.uniform(0, 5)
+            pts.append((x, y))
+        run("points", pts, ny, nx, rng.choice([0, 1, 3, 10, 17, 40]), rng.choice([None, None, 2, 16, 5]))
 
 
 # ---------------------------------------------------------------- entry points
@@ -374,6 +418,6 @@ META = {
              "the formalisation of numpy/CPython slice semantics np_get (validated against numpy on every run), exact-rational "
              "abstraction of float coordinates in roi_from_points.  Domain restrictions stated in the theorems: step None or "
              "positive; intersection inputs with start<=stop; pad/shape/full for in-range slices."),
-    "technique": "Coq proof over hand-written Gallina model + exhaustive small-domain differential correspondence (vm_compute)",
+    "technique": "Coq proof over hand-written Gallina model + exhaustive small-domain differential correspondence (vm_compute) + leaf functions regenerated from source by py2v on every run and proved equal to the model (source_is_model theorem)",
     "design_ref": "DESIGN.md section 5, C17",
 }
